@@ -128,6 +128,8 @@ def build_aerostruct(surfaces, flows, nonlinear="nlbgs", linear="direct", aitken
     ivc.add_output("R", val=f0.get("R", 11.165e6), units="m")
     ivc.add_output("W0", val=f0.get("W0", 0.4 * 3e5), units="kg")
     ivc.add_output("empty_cg", val=np.array(f0.get("empty_cg", np.zeros(3))), units="m")
+    if any(s.get("distributed_fuel_weight", False) for s in surfaces):
+        ivc.add_output("fuel_mass", val=f0.get("fuel_mass", 8000.0), units="kg")
     for i, f in enumerate(flows):
         sfx = "" if npts == 1 else "_%d" % i
         ivc.add_output("v" + sfx, val=f.get("v", 248.136), units="m/s")
